@@ -269,3 +269,56 @@ async def guarded(flavor: str, fn, horizon: float = 1.0e5):
         return Outcome("exc", exc=exc)
     except simnet.SimHang as exc:
         return Outcome("hang", value=str(exc))
+
+
+def run_threaded(setup, seed: int = 0, strategy: str = "random", p: float = 0.1, lines: bool = False,
+                 depth: int = 2, est_steps: int = 3000, wall_timeout: float = 60.0):
+    """Run callers on real threads under the controlled scheduler.
+
+    setup(sched) -> dict name -> zero-arg function (run in its own managed thread); it is called after the
+    shim `threading` namespace has been installed, so pools created inside it use shim locks.
+    Returns (sched, {name: Outcome}, shim)."""
+    import httpcore._synchronization as sync_mod
+    from . import runners
+    from .sched import ShimThreading, LineMonitor
+    import os
+
+    s = Sched(seed, strategy, p, depth=depth, est_steps=est_steps)
+    shim = ShimThreading(s)
+    real = sync_mod.threading
+    sync_mod.threading = shim
+    simnet.ENV["now"] = s.now
+    simnet.ENV["sched"] = s
+    runners.patch_time(s.now)
+    outcomes: dict = {}
+    try:
+        callers = setup(s)
+
+        def wrap(name, fn):
+            def body():
+                simnet.CALL.set(name)
+                try:
+                    outcomes[name] = runners.Outcome("ok", fn(), t=s.now())
+                except Exception as exc:  # noqa
+                    outcomes[name] = runners.Outcome("exc", exc=exc, t=s.now())
+            return body
+
+        for name, fn in callers.items():
+            s.spawn(wrap(name, fn), name)
+        if lines:
+            import httpcore
+            base = os.path.dirname(httpcore.__file__)
+            prefixes = (os.path.join(base, "_sync") + os.sep, os.path.join(base, "_synchronization.py"))
+            with LineMonitor(s, prefixes) as lm:
+                ok = s.run(wall_timeout)
+            s.line_events = lm.lines
+        else:
+            ok = s.run(wall_timeout)
+            s.line_events = 0
+        s.wall_ok = ok
+    finally:
+        sync_mod.threading = real
+        runners.unpatch_time()
+        simnet.ENV["now"] = None
+        simnet.ENV["sched"] = None
+    return s, outcomes, shim
